@@ -94,6 +94,7 @@ pub fn benign_io(s: &mut ExecSpec, rng: &mut Rng) {
     io.stdout_fail_at = s.io.stdout_fail_at;
     io.stdout_errno = s.io.stdout_errno;
     io.stop_at_input_byte = s.io.stop_at_input_byte;
+    io.stall_at = s.io.stall_at;
     s.io = io;
 }
 
